@@ -165,6 +165,8 @@ def guards_of(fn_node, target_pred):
     def visit(stmts, conds):
         local = list(conds)
         for s in stmts:
+            if isinstance(s, (ast.FunctionDef, ast.AsyncFunctionDef, ast.ClassDef)):
+                continue        # nested definitions are functions of their own
             hit = [x for x in ast.walk(s) if target_pred(x)] if not isinstance(s, (ast.If, ast.For, ast.While, ast.Try, ast.With)) else []
             if hit:
                 results.append((s, list(local)))
